@@ -29,7 +29,7 @@ def run(tier):
     stats = {"terminal_sets": 0, "terminals": 0, "lexer_tables": 0, "parser_tables": 0, "hostile": 0, "lexer_vs_nolexer_pairs": 0}
     nontrivial = set()
     # parser-only (-no_lexer) and combined grammars: TokMap + the columns of the action table
-    res = P.run_family(ck, 25 if tier == "quick" else 1500, 2, p_err=0.2, want_hist=False)
+    res = P.run_family(ck, 25 if tier == "quick" else 800, 2, p_err=0.2, want_hist=False)
     for r in res:
         if r["rc_a"] != 0:
             continue
